@@ -4,7 +4,7 @@
    range); domains are stated where the metric has one.  ll_dirichlet: symmetry only (the other axioms are observed
    on the implementation, see harness/c12.py). *)
 From Coq Require Import List ZArith Reals Permutation.
-From UV Require Import Num M_metrics T_metrics.
+From UV Require Import Num M_metrics T_metrics T_metrics_tri.
 Import ListNotations.
 Local Open Scope R_scope.
 
@@ -228,3 +228,20 @@ Example C12_nonvacuous :
   (counts RNum [1] [2] = counts RNum [1] [1] /\ d_hamming RNum [1] [2] = 1 /\ d_hamming RNum [1] [1] = 0).
 Proof. exact (conj ex_manhattan (conj ex_cosine_orthogonal (conj ex_cosine_zero_convention (conj ex_jaccard hamming_not_counts)))). Qed.
 Print Assumptions C12_nonvacuous.
+
+(* three members of the binary family are metrics on the truth values: triangle inequality for vectors of every length
+   (matching = m/n; rogers_tanimoto = sokal_michener = 2m/(n+m), m the number of coordinates whose truth values differ) *)
+Theorem C12_matching_triangle : forall x y z : list R, length x = length y -> length y = length z ->
+  d_matching RNum x z <= d_matching RNum x y + d_matching RNum y z.
+Proof. exact tri_matching. Qed.
+Print Assumptions C12_matching_triangle.
+
+Theorem C12_rogerstanimoto_triangle : forall x y z : list R, length x = length y -> length y = length z -> x <> [] ->
+  d_rogerstanimoto RNum x z <= d_rogerstanimoto RNum x y + d_rogerstanimoto RNum y z.
+Proof. exact tri_rogerstanimoto. Qed.
+Print Assumptions C12_rogerstanimoto_triangle.
+
+Theorem C12_sokalmichener_triangle : forall x y z : list R, length x = length y -> length y = length z -> x <> [] ->
+  d_sokalmichener RNum x z <= d_sokalmichener RNum x y + d_sokalmichener RNum y z.
+Proof. exact tri_sokalmichener. Qed.
+Print Assumptions C12_sokalmichener_triangle.
